@@ -30,7 +30,7 @@ KINDS = ['roundtrip', 'roundtrip_multi', 'dot', 'add', 'vdot', 'trace', 'block',
 
 def cases(tier, seed):
     out = []
-    reps = 5 if tier == 'quick' else 200
+    reps = 5 if tier == 'quick' else 600
     for kind in KINDS:
         fac = {'sym': SYMS, 'dtype': ['real', 'complex'], 'mode': ['hard', 'meta', 'mixed'], 'drop': ['none', 'some'],
                'lazy': ['plain', 'lazy']}
